@@ -83,9 +83,12 @@ func (fr *Frame) callFuncValue(cc *ssa.CallCommon, fv Val, args []Val, in ssa.In
 	e := fr.e
 	// which field was it loaded from?
 	name := ""
+	var self *Val
 	if u, ok := cc.Value.(*ssa.UnOp); ok {
 		if fa, ok := u.X.(*ssa.FieldAddr); ok {
 			name = fieldName(fa)
+			sv := fr.val(fa.X)
+			self = &sv
 		}
 	}
 	key := ""
@@ -98,6 +101,8 @@ func (fr *Frame) callFuncValue(cc *ssa.CallCommon, fv Val, args []Val, in ssa.In
 	}
 	e.note("A9: callback " + name + " obeys its assumed contract (" + key + ")")
 	sig := cc.Value.Type().Underlying().(*types.Signature)
+	fr.cbSelf = self
+	defer func() { fr.cbSelf = nil }()
 	return fr.applyContract(spec, key, sig, args, in, st)
 }
 
@@ -205,6 +210,13 @@ func (fr *Frame) applyContract(spec *FuncSpec, key string, sig *types.Signature,
 	e := fr.e
 	e.used[key] = true
 	short := key[strings.LastIndex(key, ".")+1:]
+	if e.lockCheck && e.dry == 0 && spec.Locked {
+		goal := "false"
+		if st.heap.lock == "w" || st.heap.lock == "r" {
+			goal = "true"
+		}
+		e.oblige(fr.oname("lock"), "lock", st.reach, goal, fr.pos(in.Pos()), "lock discipline: "+short+" is called with the guarding mutex held", nil)
+	}
 	fr.ord["callc:"+short]++
 	site := fmt.Sprintf("%s:%d", short, fr.ord["callc:"+short])
 	names := map[string]Val{}
@@ -212,6 +224,9 @@ func (fr *Frame) applyContract(spec *FuncSpec, key string, sig *types.Signature,
 		if i < len(args) && n != "_" && n != "" {
 			names[n] = args[i]
 		}
+	}
+	if fr.cbSelf != nil {
+		names["self"] = *fr.cbSelf
 	}
 	pre := st.heap
 	// hints
@@ -221,6 +236,9 @@ func (fr *Frame) applyContract(spec *FuncSpec, key string, sig *types.Signature,
 	}
 	for i, c := range spec.Requires {
 		ctx := &SpecCtx{e: e, names: names, heap: pre, old: pre, pkg: spec.Pkg}
+		if fr.cbSelf != nil && e.h0 != nil {
+			ctx.old = e.h0
+		}
 		partsL := ctx.evalSplitL(c.Expr)
 		var parts []string
 		for j, g := range partsL {
@@ -234,6 +252,9 @@ func (fr *Frame) applyContract(spec *FuncSpec, key string, sig *types.Signature,
 				}
 				o := e.oblige(name, "pre", st.reach, g.Term, fr.pos(in.Pos()), src, c.Tags)
 				o.Site = &SpecCtx{e: e, names: names, heap: pre, old: pre, pkg: spec.Pkg}
+				if fr.cbSelf != nil && e.h0 != nil {
+					o.Site.old = e.h0
+				}
 				if len(partsL) > 1 {
 					o.Group = fmt.Sprintf("%s#%spre@%s:%d", e.topKey(), fr.callpath, site, i+1)
 				}
@@ -562,7 +583,6 @@ func (fr *Frame) builtin(b *ssa.Builtin, cc *ssa.CallCommon, in ssa.Instruction,
 		}
 		if mt, ok := cc.Args[0].Type().Underlying().(*types.Map); ok {
 			l := e.define(fr.vname2(in), "Int", sel(e.harr(h, mapLen(mt), arrSort('L', "")), a.S))
-			e.assume("true", sx(">=", l, "0"))
 			return scalar(types.Typ[types.Int], l)
 		}
 	case "cap":
@@ -647,7 +667,17 @@ func (fr *Frame) external(fn *ssa.Function, args []Val, in ssa.Instruction, st *
 	switch name {
 	case "(*sync.RWMutex).Lock", "(*sync.RWMutex).Unlock", "(*sync.RWMutex).RLock", "(*sync.RWMutex).RUnlock",
 		"(*sync.Mutex).Lock", "(*sync.Mutex).Unlock":
-		e.note("A5: sync.RWMutex operations are no-ops for the sequential semantics")
+		e.note("A5: sync.RWMutex gives mutual exclusion; its operations are no-ops for the sequential semantics")
+		if e.lockCheck {
+			switch {
+			case strings.HasSuffix(name, ".Lock"):
+				st.heap.lock = "w"
+			case strings.HasSuffix(name, ".RLock"):
+				st.heap.lock = "r"
+			default:
+				st.heap.lock = ""
+			}
+		}
 		return Val{K: kNone}
 	case "time.Now", "(time.Time).UnixNano", "(time.Time).Unix", "math/rand.Seed":
 		e.note("A5: time/rand values are havoc")
@@ -657,18 +687,28 @@ func (fr *Frame) external(fn *ssa.Function, args []Val, in ssa.Instruction, st *
 	case "fmt.Sprintf", "fmt.Sprint":
 		e.note("A5: fmt.Sprintf result is an uninterpreted string")
 		return havoc()
-	case "math.Ceil":
+	case "math.Ceil", "math.Floor":
 		e.note("A5/A6: math.Ceil/Floor on exact rationals")
-		x := args[0].S
-		return scalar(rt, sx("to_real", sx("-", sx("to_int", sx("-", x)))))
-	case "math.Floor":
-		e.note("A5/A6: math.Ceil/Floor on exact rationals")
-		return scalar(rt, sx("to_real", sx("to_int", args[0].S)))
+		x := args[0]
+		if x.K != kRat {
+			panic(unsupported("math.Ceil/Floor on a non-rational value"))
+		}
+		if x.Den == "1" {
+			return x
+		}
+		q := e.fresh(fr.vname2(in)+"#q", "Int")
+		okc := and(st.reach, sx(">", x.Den, "0"), not(spOf(x)), not(infOf(x)), not(ninfOf(x)))
+		if name == "math.Floor" {
+			e.assume(okc, and(sx("<=", sx("*", q, x.Den), x.Num), sx("<", x.Num, sx("*", sx("+", q, "1"), x.Den))))
+		} else {
+			e.assume(okc, and(sx("<", sx("*", sx("-", q, "1"), x.Den), x.Num), sx("<=", x.Num, sx("*", q, x.Den))))
+		}
+		return Val{T: rt, K: kRat, Num: q, Den: "1", Sp: x.Sp, Inf: x.Inf, NInf: x.NInf}
 	case "math/rand.Intn":
 		e.note("A5: rand.Intn(n) returns some value in [0,n) and panics for n <= 0")
 		fr.safety(st, "randn", sx(">", args[0].S, "0"), in.Pos(), "rand.Intn argument must be positive")
 		v := havoc()
-		e.assume("true", and(sx("<=", "0", v.S), sx("<", v.S, args[0].S)))
+		e.assume(sx(">", args[0].S, "0"), and(sx("<=", "0", v.S), sx("<", v.S, args[0].S)))
 		return v
 	case "math/rand.Shuffle":
 		return fr.shuffle(args, in, st)
@@ -681,7 +721,6 @@ func (fr *Frame) external(fn *ssa.Function, args []Val, in ssa.Instruction, st *
 	}
 	panic(unsupported("external function %s", name))
 }
-
 
 // rand.Shuffle(n, swap): assumed (A5) to call swap(i, j) finitely often with 0 <= i, j < n and nothing else.
 // The closure is run once from an arbitrary intermediate state: its safety obligations are generated there,
@@ -696,7 +735,7 @@ func (fr *Frame) shuffle(args []Val, in ssa.Instruction, st *BState) Val {
 	}
 	mk := func(hint string) Val {
 		v := e.freshVal(fr.vname2(in)+hint, tInt)
-		e.assume("true", and(sx("<=", "0", v.S), sx("<", v.S, n)))
+		e.assume(sx(">", n, "0"), and(sx("<=", "0", v.S), sx("<", v.S, n)))
 		return v
 	}
 	// 1. dry run: which arrays does swap write?
@@ -740,7 +779,7 @@ func (fr *Frame) shuffle(args []Val, in ssa.Instruction, st *BState) Val {
 		inner[k] = e.fresh(k+"!shuffled", "(Array Int "+compSort+")")
 		e.hset(mid, k, srt, store(e.harr(pre, k, srt), sv.Arr, inner[k]), "")
 	}
-	ms := BState{reach: st.reach, heap: mid.clone()}
+	ms := BState{reach: e.define(fr.prefix+"Rshuffle", "Bool", and(st.reach, sx(">", n, "0"))), heap: mid.clone()}
 	i, j := mk("#i"), mk("#j")
 	fr.callClosure(cl, []Val{i, j}, in, &ms)
 	// 3. the closure must be exactly the transposition (i j) of the captured slice's backing array
